@@ -84,6 +84,14 @@ def _judge(out, case, x, gid, ng, names, tagroot, stage=""):
                 f"{qtype.name} {case['dtype']} group [{lo[gk].item():.6g},{hi[gk].item():.6g}] ({names[gk]}): x={x64.reshape(-1)[i].item()!r} dequantized={d64.reshape(-1)[i].item()!r} "
                 f"error={err.reshape(-1)[i].item():.4g} > bound {bound.reshape(-1)[i].item():.4g} (half step {step.reshape(-1)[i].item() / 2:.4g})",
             )
+    # the dequantized tensor belongs to the caller
+    if d.numel():
+        d_keep = d.clone()
+        d.zero_()
+        d2 = cut(q.dequantize)
+        if isinstance(d2, Raised) or not torch.equal(d2.nan_to_num(), d_keep.nan_to_num()):
+            out.fail(f"{tag}/dequantize/changed-by-caller-update", "a second dequantize() differs after the first result was updated in place")
+        d = d_keep
     # re-quantization with the same scale and zero-point reproduces the codes (fp32 / fp16)
     if dtype in (torch.float32, torch.float16):
         q2 = cut(AffineQuantizer.apply, d, qtype, axis, gs, q._scale, q._zeropoint)
